@@ -503,6 +503,21 @@ def build(p):
                detail='native complex scalars round-trip as (real, imag)')
   p.verify('_msgpack_ext_pack/_unpack[complex]', eng, body_complex)
 
+  # "a checkpointed server state loads back equal to the saved one": the checkpoint functions under their C09 contracts
+  # (save_state / load_state round trip over the FS model, path listing, newest wins, save_checkpoint keeps the file it
+  # has just written whenever its round is >= every existing one - the same round saved again included)
+  from . import C09
+  p.native('save_state', 'native/C09.py', 'types')
+  p.native('load_state', 'native/C09.py', 'types')
+  p.native('ckpt.rt', 'native/C09.py', 'types')
+  p.native('_get_checkpoint_paths', 'native/C09.py', 'paths')
+  p.native('load_latest_checkpoint', 'native/C09.py', 'paths')
+  p.native('save_checkpoint', 'native/C09.py', 'keep')
+  C09.v_save_load(p)
+  C09.v_get_paths(p)
+  C09.v_load_latest(p)
+  C09.v_save_checkpoint(p)
+
   p.native_checks = [
       dict(name='roundtrip_sweep', driver=D, payload={'mode': 'sweep', 'fn': 'roundtrip'},
            bound='all numeric/bool/complex dtypes incl. float16/bfloat16 x shapes {(), (0,), (3,), (2,3), (2,0,2), (2,3,4)} '
